@@ -206,7 +206,7 @@ def cases(rng: random.Random, tier: str):
     cross_ids: list = []
     try:
         for _ in range(n_pairs):
-            g = zoo.Gen(rng, origins=True)
+            g = zoo.Gen(rng, origins=True, serial=True)
             a = g.tree(rng.choice([1, 2, 4, 8, 16, 30]))
             sa = zoo.to_spec(a)
             try:
